@@ -3,6 +3,8 @@
 CFGS = {
     # name: shape, periodic, dx, origin, r2 set, ndrops, margin, posstep
     "q_1d": ((7,), (1,), (4,), (0,), "{36, 41, 50, 64, 100}", 1, 8, 1),
+    "q_1dfar": ((6,), (1,), (4,), (1,), "{36, 50}", 1, 60, 3),
+    "q_2dfar": ((6, 5), (1, 0), (4, 4), (0, 0), "{36}", 1, 52, 2),
     "q_1do": ((9,), (0,), (4,), (-3,), "{36, 41, 50, 64}", 1, 0, 1),
     "q_2d": ((5, 6), (1, 1), (4, 4), (0, 1), "{36, 41, 53, 64}", 1, 4, 1),
     "q_2da": ((10, 7), (1, 0), (4, 8), (-3, 0), "{144, 150, 169}", 1, 4, 2),
